@@ -150,6 +150,13 @@ func bitfieldBytes(class string, rng *rand.Rand) []byte {
 		return marshalBits(b)
 	case "exact_all":
 		return marshalBits(bitsOf(nPieces).Complement())
+	case "exact_stray":
+		// the length header says exactly nPieces bits, the (only) word also has a bit beyond them set
+		word := uint64(rng.Intn(1<<nPieces)) | 1<<uint([]int{nPieces, nPieces + 1 + rng.Intn(50), 63}[rng.Intn(3)])
+		out := make([]byte, 16)
+		binary.BigEndian.PutUint64(out, nPieces)
+		binary.BigEndian.PutUint64(out[8:], word)
+		return out
 	case "short":
 		return marshalBits(bitsOf(nPieces-2, uint(rng.Intn(nPieces-2))))
 	case "empty":
@@ -233,6 +240,8 @@ func handshakeBytes(h hsCase, v *victim, self, expected core.PeerID, rng *rand.R
 		bf.RemoteBitfieldBytes = map[string][]byte{third.String(): hdrBits(hugeBits)}
 	case "long_set":
 		bf.RemoteBitfieldBytes = map[string][]byte{third.String(): bitfieldBytes("long_set", rng)}
+	case "stray":
+		bf.RemoteBitfieldBytes = map[string][]byte{third.String(): bitfieldBytes("exact_stray", rng)}
 	}
 	return enc(&p2p.Message{Type: p2p.Message_BITFIELD, Bitfield: bf}), false
 }
